@@ -1,0 +1,19 @@
+//go:build verif
+
+package aghnet
+
+// Contracts for govc (see /verif/DESIGN.md).  This file is comment-only and is compiled only with -tags=verif.
+
+// ---- C08 ----
+// What a call through an IPMutFunc does to the verifier's state: it may rewrite the bytes, and the array is then
+// "anonymised" (with the no-op function installed when anonymisation is off, nothing changes - still the current policy).
+//@ func (functype) IPMutFunc(ip net.IP)
+//@   ghost at return: anonymised[arrayOf(ip)] = true
+//@   modifies elems(ip), anonymised
+
+// The ignore list is matched in lower case: the rules are lower-cased when the engine is built (hosts reach Has
+// already normalised by aghnet.NormalizeDomain).
+//@ func NewIgnoreEngine(ignored []string) (e *IgnoreEngine, err error)
+//@   property C08
+//@   callsite github.com/AdguardTeam/urlfilter/filterlist.NewRuleStorage(lists) requires lower-cased-rules: len(lists) == 1 && typeIs(lists[0], *filterlist.StringRuleList) && unbox(lists[0], *filterlist.StringRuleList).RulesText == strings.ToLower(strings.Join(ignored, "\n"))
+//@   modifies *
